@@ -45,6 +45,15 @@ type Explorer struct {
 	// Nothing is dropped: it bounds the size (and memory) of one job, not the search.
 	JobBudget int
 	Deferred  [][]int
+	// RootSig != 0: hash of the enabled-set signatures the execution that produced this job's prefix met
+	// at the prefix's choice points (it ran in another process); the replayed prefix must meet the same.
+	// ChildSigs/DeferredSigs: the same hash for each child prefix returned by Explore / left in Deferred.
+	RootSig      uint64
+	ChildSigs    []uint64
+	DeferredSigs []uint64
+	// Restabilised counts executions of a split job repeated because the choice structure of two
+	// consecutive runs of the same schedule differed (process-global state of the code under test).
+	Restabilised int
 
 	Execs      int
 	Steps      int
@@ -57,12 +66,26 @@ type Explorer struct {
 	Stopped    bool
 	Samples    [][]int
 
-	outcome string
+	outcome   string
+	lastSplit uint64
+	stab      int
 }
 
-func (e *Explorer) runOne(prefix []int) (*Exec, string) {
+// SigHash hashes the enabled-set signatures of the first n choice points (never 0).
+func SigHash(pts []PointRec, n int) uint64 {
+	h := uint64(14695981039346656037)
+	for i := 0; i < n && i < len(pts); i++ {
+		h = (h ^ uint64(pts[i].Sig) ^ uint64(pts[i].N)<<32) * 1099511628211
+	}
+	if h == 0 {
+		h = 1
+	}
+	return h
+}
+
+func (e *Explorer) runOne(prefix []int, sigs []uint32) (*Exec, string) {
 	e.outcome = ""
-	x := Run(RunOpts{Prefix: prefix, Permute: e.Permute, Clock: e.Clock, StepCap: e.StepCap}, func() {
+	x := Run(RunOpts{Prefix: prefix, PrefixSig: sigs, Permute: e.Permute, Clock: e.Clock, StepCap: e.StepCap}, func() {
 		o := e.Body()
 		setOutcome(e, o)
 	})
@@ -114,6 +137,12 @@ func (e *Explorer) judge(x *Exec, outcome string) *Violation {
 // recursively, every alternative at every later choice point within the bound.
 // When split is true it does not recurse but returns the child prefixes.
 func (e *Explorer) Explore(prefix []int, split bool) (children [][]int) {
+	return e.explore(prefix, nil, split)
+}
+
+// explore: sigs, when not nil, are the enabled-set signatures the parent execution recorded at the
+// prefix's choice points; the replayed prefix must meet the same ones (a divergence is a hard error).
+func (e *Explorer) explore(prefix []int, sigs []uint32, split bool) (children [][]int) {
 	if e.Outcomes == nil {
 		e.Outcomes = map[string]int{}
 	}
@@ -124,7 +153,7 @@ func (e *Explorer) Explore(prefix []int, split bool) (children [][]int) {
 		e.Capped = true
 		return nil
 	}
-	x, outcome := e.runOne(prefix)
+	x, outcome := e.runOne(prefix, sigs)
 	e.Execs++
 	e.Steps += x.Steps
 	e.ChoicePts += len(x.Points) - len(prefix)
@@ -144,6 +173,32 @@ func (e *Explorer) Explore(prefix []int, split bool) (children [][]int) {
 	}
 	if len(x.Points) < len(prefix) {
 		panic(fmt.Sprintf("vrt: replay divergence: execution had %d choice points, prefix has %d", len(x.Points), len(prefix)))
+	}
+	if sigs == nil && e.RootSig != 0 && x.Verdict != VDiverge {
+		if h := SigHash(x.Points, len(prefix)); h != e.RootSig {
+			panic(fmt.Sprintf("vrt: replay divergence: the prefix's %d choice points have signature hash %016x here, %016x where the prefix was produced", len(prefix), h, e.RootSig))
+		}
+	}
+	if split && x.Verdict == VNone && e.stab < 4 {
+		// The children of a split job are explored by other processes. If the same schedule run again has
+		// another choice structure (this execution built process-global state, the next finds it built),
+		// the children are taken from the later, steady one; every run is judged like any other.
+		if h := SigHash(x.Points, len(x.Points)); h != e.lastSplit {
+			e.lastSplit = h
+			if e.stab++; e.stab > 1 {
+				e.Restabilised++
+			}
+			if v := e.judge(x, outcome); v != nil {
+				e.Outcomes["VIOLATION:"+v.Kind]++
+				if e.OnViolation == nil || !e.OnViolation(v) {
+					e.Stopped = true
+					return nil
+				}
+			}
+			return e.explore(prefix, sigs, split)
+		}
+		e.Execs-- // the confirming run of the same schedule is not a new execution of the search
+		e.Steps -= x.Steps
 	}
 	if v := e.judge(x, outcome); v != nil {
 		e.Outcomes["VIOLATION:"+v.Kind]++
@@ -184,10 +239,16 @@ func (e *Explorer) Explore(prefix []int, split bool) (children [][]int) {
 				child[i] = alt
 				if split {
 					children = append(children, child)
+					e.ChildSigs = append(e.ChildSigs, SigHash(x.Points, i+1))
 				} else if e.JobBudget > 0 && e.Execs >= e.JobBudget {
 					e.Deferred = append(e.Deferred, child)
+					e.DeferredSigs = append(e.DeferredSigs, SigHash(x.Points, i+1))
 				} else {
-					e.Explore(child, false)
+					csig := make([]uint32, i+1)
+					for k := 0; k <= i; k++ {
+						csig[k] = x.Points[k].Sig
+					}
+					e.explore(child, csig, false)
 					if e.Stopped {
 						return nil
 					}
